@@ -33,6 +33,8 @@ var extractors = []extractor{
 	{"Debug", genDebug},
 	{"SrvHandlers", genSrvHandlers},
 	{"RespFacts", genRespFacts},
+	{"WriterFacts", genWriterFacts},
+	{"ClientCfg", genClientCfg},
 }
 
 func main() {
